@@ -58,6 +58,7 @@ Apply(e) ==
     LET n == e.node IN
     CASE e.ev = "api" /\ e.op = "start" ->
            S([ns EXCEPT ![n] = Start(ns[n], e.ca, e.delay, e.t)], pc, pend, claimed)
+      [] e.ev = "api" /\ e.op = "stop" -> S([ns EXCEPT ![n] = Stop(ns[n], e.ca)], pc, pend, claimed)
       [] e.ev = "api" /\ e.op \in {"ca_send_pgn", "ca_send_message", "ca_send_request"} ->
            LET ca == ns[n].cas[e.ca]
                r == CASE e.op = "ca_send_pgn" -> TrySendPgn(ca, e.dp, e.pf, e.ps, e.prio, e.data)
